@@ -396,7 +396,29 @@ func (fr *frame) runDefers() {
 func (fr *frame) runBlock() {
 	b := fr.block
 	in := fr.in
-	for _, ins := range b.Instrs {
+	// φ-nodes of a block read their operands simultaneously (a φ may name another φ of the same block, e.g.
+	// `px, nextPx = nextPx, px` around a loop): evaluate all of them against the old environment first
+	nphi := 0
+	for nphi < len(b.Instrs) {
+		if _, ok := b.Instrs[nphi].(*ssa.Phi); !ok {
+			break
+		}
+		nphi++
+	}
+	if nphi > 1 {
+		vals := make([]Value, nphi)
+		for i := 0; i < nphi; i++ {
+			vals[i] = fr.evalInstr(b.Instrs[i].(*ssa.Phi), b.Instrs[i])
+		}
+		for i := 0; i < nphi; i++ {
+			fr.env[fr.info.idx[b.Instrs[i].(*ssa.Phi)]] = vals[i]
+		}
+		in.steps += nphi
+		fr.info.steps += nphi
+	} else {
+		nphi = 0
+	}
+	for _, ins := range b.Instrs[nphi:] {
 		in.steps++
 		fr.info.steps++
 		if in.steps > in.maxSteps {
